@@ -68,6 +68,22 @@ Upsert ==
   /\ pool' = UpsertPool(pool, Ev.k, Ev.v, Ev.w) /\ idx' = -1 /\ cw' = 0
   /\ UNCHANGED <<scn, subject, drift>> /\ nev' = nev + 1
 
+(* an update call whose option list ends with an invalid option: it must fail; whatever part of it was applied  *)
+(* is read back (the property does not say), and from then on the observed weights are the pool               *)
+UpsertBad ==
+  /\ IsEvent("UpsertBad")
+  /\ LET r2 == [k \in MemKeys(Ev.members) |-> MemW(Ev.members, k)] IN
+     /\ ref' = r2
+     /\ bad' = ReportAll(bad, scn, l, <<
+            <<Ev.err, "C02.InvalidUpsertFails">>,
+            <<NotMutated(Ev.members), "C02.PoolNotMutated">>,
+            <<MemKeys(Ev.members) = DOMAIN ref \/ MemKeys(Ev.members) = DOMAIN ref \cup {Ev.k}, "C02.MembersMatchAdminCalls">> >>)
+     /\ cnt' = ZeroCnt(r2)
+  /\ picks' = <<>>
+  /\ pool' = [i \in 1..Len(Ev.members) |-> [k |-> Ev.members[i].k, v |-> Ev.members[i].v, w |-> Ev.members[i].w]]
+  /\ UNCHANGED <<idx, cw>>          \* the failing path does not reset the iterator
+  /\ UNCHANGED <<scn, subject, drift>> /\ nev' = nev + 1
+
 Remove ==
   /\ IsEvent("Remove")
   /\ LET known == Ev.k \in DOMAIN ref
@@ -188,6 +204,6 @@ End ==
   /\ JsonSerialize("result.json", [bad |-> bad, drift |-> drift, events |-> nev, lines |-> l])
   /\ UNCHANGED <<scn, subject, pool, idx, cw, ref, picks, cnt, bad, drift, nev>>
 
-Next == Reset \/ Upsert \/ Remove \/ Pick \/ Serve \/ CUpsert \/ CRemove \/ Members \/ End
+Next == Reset \/ Upsert \/ UpsertBad \/ Remove \/ Pick \/ Serve \/ CUpsert \/ CRemove \/ Members \/ End
 Spec == Init /\ [][Next]_vars
 =============================================================================
